@@ -384,7 +384,15 @@ func runProposalHist(t *testing.T, in []string) string {
 			continue
 		}
 		if f[0] != "blk" {
+			nvals := len(c.Vals)
 			h.Exec(step)
+			if len(c.Vals) != nvals { // a validator was created: its bridge key joins the table of known keys
+				var ks []string
+				for _, v := range c.Vals {
+					ks = append(ks, v.ValAddr.String()+"="+evmAddrOfKey(v.Acct))
+				}
+				h.Out = append(h.Out, "K "+strings.Join(ks, ","))
+			}
 			continue
 		}
 		ms, _ := strconv.ParseInt(f[1], 10, 64)
@@ -469,7 +477,16 @@ func genProposalHist(r *Rng, i int, tier string) []string {
 	// the first blocks decide who registers an EVM address: hostile extensions early keep some validators unregistered
 	nblocks := 12 + r.Intn(20)
 	add("mkrep v0 0 1000000")
+	// a newcomer (1 in 3): an account creates a validator with less than 5 % of the power, so the bridge set is not re-saved; it
+	// registers an EVM address, votes, and attests snapshots whose validator set it is not a member of
+	newcomerAt := -1
+	if r.Chance(1, 3) {
+		newcomerAt = 2 + r.Intn(4)
+	}
 	for b := 0; b < nblocks; b++ {
+		if b == newcomerAt {
+			add("mkval a2 %d", int64(nv)*1e9*r.Pick(1, 2, 3)/100)
+		}
 		if r.Chance(1, 4) {
 			add("rep v0 q%d %064x", r.Intn(3), r.Range(1, 1e9))
 		}
